@@ -201,3 +201,122 @@ def model_lines_for(s, m, lines):
 
 def impl_lines_for(m, lines):
     return ["use " + m.name] + lines
+
+
+# ----------------------------------------------------------------------
+# compiled layout as reported by the model (Layout.compile_message)
+# ----------------------------------------------------------------------
+
+def parse_layout(line):
+    """'ok hdr=8 bl@0:u16 cbl=4 L[...]' -> dict"""
+    assert line.startswith("ok "), line
+    head, rest = line[3:].split(" L[", 1)
+    kv = dict(x.split("=") for x in head.split() if "=" in x)
+    blo = [x for x in head.split() if x.startswith("bl@")][0][3:].split(":")
+    pos = [0]
+    txt = "L[" + rest
+
+    def lvl():
+        assert txt.startswith("L[f=", pos[0]), txt[pos[0]:pos[0] + 20]
+        pos[0] += 4
+        e = txt.index(" g=", pos[0])
+        fs = [tuple(int(y) for y in x.split(":")) for x in txt[pos[0]:e].split(",") if x]
+        pos[0] = e + 3
+        gs = []
+        while txt.startswith("G(", pos[0]):
+            pos[0] += 2
+            e = txt.index(" L[", pos[0])
+            h = txt[pos[0]:e].split()
+            g = {"dim": int(h[0].split("=")[1]), "bl": (int(h[1][3:].split(":")[0]), h[1].split(":")[1]),
+                 "n": (int(h[2][2:].split(":")[0]), h[2].split(":")[1]), "cbl": int(h[3].split("=")[1])}
+            pos[0] = e + 1
+            g["level"] = lvl()
+            assert txt[pos[0]] == ")"
+            pos[0] += 1
+            gs.append(g)
+        assert txt.startswith(" d=", pos[0]), txt[pos[0]:pos[0] + 20]
+        pos[0] += 3
+        e = txt.index("]", pos[0])
+        ds = [x for x in txt[pos[0]:e].split(",") if x]
+        pos[0] = e + 1
+        return {"fields": fs, "groups": gs, "data": ds}
+
+    root = lvl()
+    return {"hdr": int(kv["hdr"]), "bl": (int(blo[0]), blo[1]), "cbl": int(kv["cbl"]), "level": root}
+
+
+TBITS = {"u8": 8, "u16": 16, "u32": 32, "u64": 64}
+
+
+def gen_vtree(rng, lay_level, cbl, bl_t, depth=0, inflate=True, sizes=(0, 1, 1, 2, 3)):
+    """value tree with explicit (wire) blocks: block length = compiled + extension"""
+    ext = rng.choice([0, 0, 1, 7, 16]) if inflate else 0
+    wbl = cbl + ext
+    if wbl >= (1 << TBITS[bl_t]):
+        wbl = cbl
+    t = {"block": bytes(rng.below(256) for _ in range(wbl)), "groups": [], "data": []}
+    return t, wbl, lay_level
+
+
+def gen_vlevel(rng, lay, wbl, inflate, depth, sizes):
+    v = {"block": bytes(rng.below(256) for _ in range(wbl)), "groups": [], "data": []}
+    for g in lay["groups"]:
+        n = rng.choice(sizes) if depth < 2 else rng.choice((0, 1, 2))
+        ext = rng.choice([0, 0, 1, 5, 12]) if inflate else 0
+        gw = g["cbl"] + ext
+        if gw >= (1 << TBITS[g["bl"][1]]):
+            gw = g["cbl"]
+        if n >= (1 << TBITS[g["n"][1]]):
+            n = 1
+        dimbg = bytearray(rng.below(256) for _ in range(g["dim"]))
+        # for empty groups the wire blockLength is whatever the dimension holds: put a fitting value
+        es = [gen_vlevel(rng, g["level"], gw, inflate, depth + 1, sizes) for _ in range(n)]
+        v["groups"].append({"dimbg": bytes(dimbg), "entries": es, "wbl": gw})
+    for d in lay["data"]:
+        ln = rng.choice([0, 0, 1, 2, 5, 17, 255, 256]) if TBITS[d] > 8 else rng.choice([0, 1, 2, 17, 255])
+        if depth > 0 and ln > 17:
+            ln = 3
+        v["data"].append(bytes(rng.below(256) for _ in range(ln)))
+    return v
+
+
+def vtree_tokens(v):
+    toks = ["V", hx(v["block"]), str(len(v["groups"]))]
+    for g in v["groups"]:
+        toks += ["g", hx(g["dimbg"]), str(len(g["entries"]))]
+        for e in g["entries"]:
+            toks += vtree_tokens(e)
+    toks.append(str(len(v["data"])))
+    for d in v["data"]:
+        toks.append(hx(d))
+    return toks
+
+
+def vtree_as_tree(v):
+    """shape for decode_script (which only needs groups/data nesting)"""
+    return {"fields": [], "groups": [[vtree_as_tree(e) for e in g["entries"]] for g in v["groups"]],
+            "data": v["data"]}
+
+
+def expected_field_values(s, lv, lay, v, path, big, out):
+    """independent expectation: value of every scalar getter computed in Python
+    straight from the block bytes the reference encoder placed (offsets from the
+    Coq layout)"""
+    for k, f in enumerate(msgdrv.nonconst_fields(s, lv)):
+        r = s.resolve(f.type_name)
+        off, size = lay["fields"][k]
+        bs = v["block"][off:off + size]
+        if r[0] == "S":
+            raw = int.from_bytes(bs, "big" if big else "little")
+            n = PSIZE[r[1]]
+            if r[1] in ("int8", "int16", "int32", "int64") and raw >= 1 << (8 * n - 1):
+                raw -= 1 << (8 * n)
+            out["getf %s %d %s" % (path, k, r[1])] = str(raw)
+        else:
+            out["getb %s %d" % (path, k)] = hx(bs)
+    for gi, g in enumerate(lv.groups):
+        for ei, e in enumerate(v["groups"][gi]["entries"]):
+            sub = ("%d:%d" % (gi, ei)) if path == "." else (path + "/%d:%d" % (gi, ei))
+            expected_field_values(s, g, lay["groups"][gi]["level"], e, sub, big, out)
+    for di, d in enumerate(lv.data):
+        out["getd %s %d" % (path, di)] = hx(v["data"][di])
